@@ -37,7 +37,8 @@ META = {
             "stage shows the same packets do reach the application once authenticated.",
     "note": "server side is unmodified paramiko (in two gssapi stages the handlers of the temporary GSS auth "
             "handler are bound by the harness, otherwise those stages are unreachable); client packets are "
-            "harness-composed; connection termination counts as refusal",
+            "harness-composed; connection termination counts as refusal; 'before authentication succeeds' "
+            "is judged on the wire (no USERAUTH_SUCCESS sent yet), not by asking Transport.is_authenticated()",
     "design_ref": "4/C15",
 }
 
